@@ -216,7 +216,7 @@ def run(chk: Check) -> None:
     # listing: the file-name PATTERN handed to fnmatch / glob is made of constants.  A key (pid, tag) spliced into a pattern is interpreted -- '[', '*', '?' in a
     # process id select other files and miss its own -- unless it went through glob.escape / re.escape first
     n_pat = 0
-    for f_ in pic.vmethods.values():
+    for f_ in pic.emethods.values():
         for c_ in calls_in_func(f_):
             if not (norm(c_.func) in ('fnmatch.filter', 'fnmatch.fnmatch', 'fnmatch.fnmatchcase', 'glob.glob', 'glob.iglob') and c_.args):
                 continue
@@ -242,7 +242,7 @@ def run(chk: Check) -> None:
                                 elif isinstance(n_, ast.For) and norm(n_.target) == x_.id:
                                     nxt.append((h_, n_.iter))
                             if x_.id in h_.params or (h_.node.args.vararg is not None and h_.node.args.vararg.arg == x_.id):
-                                for g_ in pic.vmethods.values():
+                                for g_ in pic.emethods.values():
                                     for n_ in ast.walk(g_.node):
                                         if isinstance(n_, ast.Call) and last_name(n_) == h_.name:
                                             nxt.extend((g_, a_) for a_ in list(n_.args) + [k_.value for k_ in n_.keywords])
@@ -268,7 +268,7 @@ def run(chk: Check) -> None:
     chk.ob('PAIR-idempotent-delete', pd, ok, 'pickle: deleting a process\'s checkpoints deletes each of its (pid, tag) files', kind='only-that-pid')
 
     # 4. (informational) abstract interface implemented
-    abstract = [n for n, f in base.vmethods.items() if f.has_decorator('abstractmethod')]
+    abstract = [n for n, f in base.emethods.items() if f.has_decorator('abstractmethod')]
     for cls in (mem, pic):
         missing = [a for a in abstract if a not in cls.methods]
         chk.ob('SIB-interface', cls.qualname, not missing, f'{cls.name} implements every abstract method of Persister (missing: {missing})', kind='implements-all')
